@@ -1,0 +1,59 @@
+//go:build verif
+
+// Contracts for gocv (see /verif/DESIGN.md). Comment-only file: takes no part in any build.
+
+package blockchain
+
+// ---- C26: the block sequence log ---------------------------------------------------------------------
+//@ pure func (github.com/33cn/chain33/common/db.Batch).Set
+//@ pure func (github.com/33cn/chain33/common/db.Batch).Delete
+//@ pure func github.com/33cn/chain33/types.Encode
+//@ pure func (*github.com/33cn/chain33/types.Block).Hash
+//@ pure func (github.com/33cn/chain33/queue.Client).GetConfig
+//@ pure func github.com/33cn/chain33/common.ToHex
+//@ pure func calcSequenceToHashKey
+//@ pure func calcHashToSequenceKey
+//@ pure func calcMainSequenceToHashKey
+//@ pure func calcHashToMainSequenceKey
+//@ pure func calcHeightToHashKey
+//@ pure func (*BlockStore).saveBlockForTable
+//@ pure func delParaTxTable
+// the stored last sequence; -1 (with ErrHeightNotExist) when nothing has been recorded yet
+//@ trusted func (*BlockStore).LoadBlockLastSequence
+//@   frame nothing
+//@   ensures result1 == types.ErrHeightNotExist ==> result0 == -1
+//@   ensures result0 >= -1
+
+//@ pure func calcLastSeqKey
+
+// one record per call: number = stored last sequence + 1 (0 for the first), written to the caller's
+// batch together with the new "last sequence", the hash->sequence entry only for an added block
+//@ func (*BlockStore).saveBlockSequence [C26]
+//@   opt safety=assumed panics=allowed overflow=assumed
+//@   ensures old(bs.saveSequence) ==> result1 == nil && result0 == ret0(LoadBlockLastSequence) + 1 && result0 >= 0
+//@   ensures !old(bs.saveSequence) ==> result0 == 0 && !called(LoadBlockLastSequence)
+//@   assert@call calcSequenceToHashKey: arg0 == ret0(LoadBlockLastSequence) + 1 && arg1 == bs.isParaChain
+//@   assert@call Encode#0: unbox(arg0).Hash == hash && unbox(arg0).Type == Type
+//@   assert@call Set#0: arg0 == storeBatch && arg1 == ret(calcSequenceToHashKey) && arg2 == ret(Encode, 0)
+//@   assert@call Encode#1: unbox(arg0).Data == ret0(LoadBlockLastSequence) + 1
+//@   assert@call calcHashToSequenceKey: Type == 1 && arg0 == hash
+//@   assert@call Set#1: arg0 == storeBatch && arg1 == ret(calcHashToSequenceKey) && arg2 == ret(Encode, 1)
+//@   assert@call Set#2: arg0 == storeBatch && arg1 == ret(calcLastSeqKey) && arg2 == ret(Encode, 1)
+//@   ensures old(bs.saveSequence) ==> called(Set, 0) && called(Set, 2) && (Type == 1 ==> called(Set, 1))
+
+// connecting a block appends an "add" record for its hash, disconnecting a "delete" record, in the batch
+// that carries the rest of the block's records
+//@ func (*BlockStore).SaveBlock [C26]
+//@   opt safety=assumed panics=allowed overflow=assumed
+//@   requires blockdetail != nil && blockdetail.Block != nil
+//@   assert@call saveBlockSequence: arg1 == storeBatch && arg2 == ret(Hash) && arg3 == old(blockdetail.Block.Height) && arg4 == 1 && arg5 == sequence
+//@   ensures result1 == nil && old(bs.saveSequence || bs.isParaChain) ==> called(saveBlockSequence) && ret1(saveBlockSequence) == nil && result0 == ret0(saveBlockSequence)
+//@   assert@call Block).Hash: arg0 == blockdetail.Block
+
+//@ func (*BlockStore).DelBlock [C26]
+//@   opt safety=assumed panics=allowed overflow=assumed
+//@   requires blockdetail != nil && blockdetail.Block != nil
+//@   assert@call saveBlockSequence: arg1 == storeBatch && arg2 == ret(Hash) && arg3 == old(blockdetail.Block.Height) && arg4 == 2 && arg5 == sequence
+//@   ensures result1 == nil && old(bs.saveSequence || bs.isParaChain) ==> called(saveBlockSequence) && ret1(saveBlockSequence) == nil
+//@   assert@call Block).Hash: arg0 == blockdetail.Block
+//@   loop 0 invariant true
